@@ -33,6 +33,20 @@ def contractOk (R : Nat → Bytes → Option Nat) : Req → Outcome → Bool
   | .untilClose, .bytes _ => true
   | _, _ => false
 
+/-- the buffered bytes `buf` already contain a complete result for the request: a read that is still pending on an
+    open stream while `ready` holds is stalled (its data arrived and was not handed over) -/
+def ready (R : Nat → Bytes → Option Nat) : Req → Bytes → Bool
+  | .bytes n part, buf => decide (n ≤ buf.length) || (part && decide (0 < buf.length))
+  | .into n part, buf => decide (n ≤ buf.length) || (part && decide (0 < buf.length))
+  | .until d _, buf => !buf.isEmpty && (findSub d buf).isSome
+  | .regex rid _, buf => !buf.isEmpty && (R rid buf).isSome
+  | .untilClose, _ => false
+
+/-- index of the first (request, buffer) pair that is stalled -/
+def firstReady (R : Nat → Bytes → Option Nat) : List (Req × Bytes) → Nat → Option Nat
+  | [], _ => none
+  | (q, b) :: rest, i => if ready R q b then some i else firstReady R rest (i + 1)
+
 /-- nothing lost, duplicated or reordered: the results concatenate to a prefix of the stream -/
 def conserved (results : List Bytes) (stream : Bytes) : Bool := isPrefixOf results.flatten stream
 
